@@ -3,6 +3,8 @@
 Domain   flat histories (no nested child histories, no renames) built by 1-8 generated steps: create with changing
          format sets, create -sf covering part of the tree, added files, files altered (=> generations with failed
          entries) and restored; then `flatten` into a folder outside the tree, then `verify -pl`.
+         Later additions: a user ignore pattern from the first generation on, or from a later one (files recorded before
+         stay in the summary; the packing list carries the pattern); files beyond the 1 MiB read chunk.
 Oracle   reference merge over the source manifests read with the independent reader: per path and format the digest
          of the earliest generation whose entry is not 'failed'.  The packing list must hold exactly these (one
          record per path, one digest per format), no directory record, process type 'flatten', be schema-valid, and
